@@ -6,9 +6,10 @@ import ProductMD.Model.Loads
 attributes kept as `PyVal` (a corrupted document may put any JSON value anywhere); `checks` are the `validate()` calls the
 readers make on what they built, placed by the GENERATED call structure (`LFlag.*`).  C07 observes ok/err only.
 
-Not modelled (`Err.other`): the readers selected by a version gate for documents older than 1.0 (composeinfo: top-level
-detection and child lookup by UID prefix; treeinfo 0.0 – 0.3) — C05's models; `%s` of a list/dict/foreign uid; configparser's
-`[DEFAULT]` section.
+The readers selected by a version gate for older documents are part of the model: composeinfo below 1.0 (top-level detection
+and child lookup by UID prefix: C05's `isLegacyTop` / `prefixKids`), treeinfo ≤ 0.3 and files without a header (C05's
+`TI.Legacy.deserialize`, whose result is converted to the `TreeInfoM` vocabulary and then checked like any other load).
+Not modelled (`Err.other`): `%s` of a list/dict/foreign uid; configparser's `[DEFAULT]` section; `float()` beyond plain decimals.
 -/
 namespace PM.Val.Loads
 open PM PM.Val
@@ -78,8 +79,9 @@ def ciBuild (vt : Nat × Nat) (full : PyVal) : Nat → Str → Except Err CIVar
               | .error e => throw e
               | .ok () => ids.mapM fun i => fmt2 uid i
           | none => do
-              notLegacy Gen.gate_composeinfo_Variant_deserialize_0 vt
-              pure []
+              -- documents below the generated gate (`< (1, 0)`) carry no child lists: every key that starts with `variant_uid + "-"`
+              -- is read as a child (C05's `prefixKids`, document order)
+              if ← gateB Gen.gate_composeinfo_Variant_deserialize_0 vt then pure (CI.Legacy.prefixKids full vuid) else pure []
       | _ => pure []
     let kids ← kidUids.foldlM (fun acc u => do
       let v ← ciBuild vt full fuel u
@@ -96,14 +98,17 @@ def childRefs (entries : List (Str × PyVal)) : Except Err (List Str) :=
       let refs ← ids.mapM fun i => fmt2 uid i
       pure (acc ++ refs)) []
 
-/-- `Variants.deserialize` for documents `>= 1.0` -/
+/-- `Variants.deserialize`, every format version -/
 def ciVariantsFill (vt : Nat × Nat) (payload : PyVal) : Except Err (List CIVar) := do
   let full ← getItem payload c!"variants"
   match full with
   | .dict entries =>
     let refs ← childRefs entries
-    notLegacy Gen.gate_composeinfo_Variants_deserialize_0 vt
-    let tops := Str.sortDedup ((entries.map (·.1)).filter fun u => !refs.contains u)
+    -- below the generated gate (`< (1, 0)`) the top level is found from the UIDs (C05's `isLegacyTop`: no dash, or the part before
+    -- the last dash is not a key), from 1.0 on from the explicit child lists
+    let legacy ← gateB Gen.gate_composeinfo_Variants_deserialize_0 vt
+    let keys := entries.map (·.1)
+    let tops := Str.sortDedup (if legacy then keys.filter (CI.Legacy.isLegacyTop keys) else keys.filter fun u => !refs.contains u)
     tops.foldlM (fun acc u => do
       let v ← ciBuild vt full (entries.length + 1) u
       addKid acc v) []
@@ -239,13 +244,87 @@ def tiMediaFill (vt : Nat × Nat) (doc : PyVal) : Except Err Obj := do
     pure [(c!"discnum", .int d), (c!"totaldiscs", .int t)]
   else pure [(c!"discnum", .none), (c!"totaldiscs", .none)]
 
-def tiFill (doc : PyVal) : Except Err TreeInfoM := do
+/-- the reader for documents newer than 0.3 (every treeinfo gate answers "current"; `Err.other` otherwise) -/
+def tiFillCurrent (doc : PyVal) : Except Err TreeInfoM := do
   let f ← tiFrontFill doc
   let variants ← tiVariantsFill f.vt doc
   let checksums ← tiChecksumsFill doc
   let images ← tiImagesFill doc (f.tree.get c!"arch")
   let media ← tiMediaFill f.vt doc
   pure ⟨f.header, f.release, f.baseProduct.getD [], f.tree, variants, checksums, images, tiStage2Fill doc, media⟩
+
+/-! #### documents ≤ 0.3 and files without a header: C05's reader, converted -/
+
+/-- configparser's parse as the typed INI document of C04/C05 (every value of a parsed file is a string) -/
+def iniOf (doc : PyVal) : Except Err Ini :=
+  match doc with
+  | .dict secs => secs.mapM fun (s : Str × PyVal) => match s.2 with
+      | .dict opts => (opts.mapM fun (o : Str × PyVal) => match o.2 with
+          | .str v => (.ok (o.1, v) : Except Err (Str × Str))
+          | _ => .error .other).map fun os => (s.1, os)
+      | _ => .error .other
+  | _ => .error .other
+
+/-- `int(float(text))`: the syntax errors of `float()` exactly, the value for plain decimal notation (`Err.other` beyond) -/
+def floatOracle : TI.FloatOracle :=
+  { intOfFloatStr := fun s => match floatOk s with
+      | .error e => .error e
+      | .ok t => match pyInt (.float t) with
+          | .ok (.int n) => .ok n
+          | .ok _ => .error .other
+          | .error e => .error e
+    reprOfFloatStr := floatOk }
+
+def tiVarOf : TI.Variant → TIVar
+  | .mk key id uid name type _ kids =>
+    .mk key [(c!"id", .str id), (c!"uid", .str uid), (c!"name", .str name), (c!"type", .str type)] (tiVarsOf kids)
+where tiVarsOf : List TI.Variant → List TIVar
+  | [] => []
+  | v :: vs => tiVarOf v :: tiVarsOf vs
+
+def tiProductObj (p : TI.Product) : Obj := [(c!"name", .str p.name), (c!"version", .str p.version), (c!"short", .str p.short)]
+
+/-- the object C05's reader returns, in the vocabulary of `TreeInfoM` (attribute ↦ value, as the validators read them); the header
+is the one READ (`0.0` for a file without `[header]`), as for current documents -/
+def tiOfLegacy (version : Str) (t : TI.TreeInfo) : TreeInfoM :=
+  { header := [(c!"version", .str version)]
+    release := tiProductObj t.release ++ [(c!"is_layered", .bool t.isLayered)]
+    baseProduct := match t.baseProduct with | some bp => tiProductObj bp | none => []
+    tree := [(c!"arch", .str t.tree.arch), (c!"build_timestamp", t.tree.ts.py), (c!"platforms", .list (t.tree.platforms.map .str))]
+    variants := tiVarOf.tiVarsOf t.variants
+    checksums := [(c!"checksums", .dict (t.checksums.map fun c => (c.1, .list [.str c.2.1, .str c.2.2])))]
+    images := [(c!"images", .dict (t.images.map fun p => (p.1, .dict (p.2.map fun kv => (kv.1, .str kv.2)))))]
+    stage2 := [(c!"mainimage", TI.optStr t.mainimage), (c!"instimage", TI.optStr t.instimage)]
+    media := [(c!"discnum", TI.optInt t.discnum), (c!"totaldiscs", TI.optInt t.totaldiscs)] }
+
+/-- the header version as read: the option when present, `0.0` for a file without one (`Header.deserialize` of treeinfo) -/
+def tiVersionRead (doc : PyVal) : Except Err (Option PyVal) := do
+  let sec ← getD doc c!"header" (.dict [])
+  match ← getD sec c!"version" .none with
+  | .none => pure none
+  | v => pure (some v)
+
+/-- does any class of the treeinfo reader take a legacy branch at this version?  (C05's `selsOf` of the generated gates) -/
+def tiIsLegacy (vt : Nat × Nat) : Except Err Bool := do
+  let S ← TI.Legacy.selsOf vt
+  pure (!({ S with headerTyped := true } == TI.Legacy.Sels.current))
+
+def tiFillLegacy (version : Str) (doc : PyVal) : Except Err TreeInfoM := do
+  let d ← iniOf doc
+  let t ← TI.Legacy.deserialize floatOracle d
+  pure (tiOfLegacy version t)
+
+/-- `TreeInfo.deserialize`, every header version and files without a header -/
+def tiFill (doc : PyVal) : Except Err TreeInfoM := do
+  match ← tiVersionRead doc with
+  | none => tiFillLegacy c!"0.0" doc
+  | some ver =>
+    let vt ← versionTuple ver
+    if ← tiIsLegacy vt then
+      match ver with
+      | .str v => tiFillLegacy v doc
+      | _ => .error .other
+    else tiFillCurrent doc
 
 /-- the `validate()` calls of the treeinfo reader: every section reader ends with one (unconditionally — also for an empty
 images/stage2/media section), `add` validates every variant it is given, the container validates after the loop -/
